@@ -328,6 +328,10 @@ func Mix(r *core.Rng, p MixParams) *prog.Program {
 		// same bucket: the structures are separate name spaces
 		g.Keys = append(g.Keys, subset(r, []string{"l", "m", "s", "t", "p", "q"}, 1, 4)...)
 	}
+	if r.Bool(0.06) {
+		g.Long = true
+		pg.Cfg.SegSize = []int64{4096, 8192}[r.Intn(2)]
+	}
 	g.Bkts = dsBuckets["kv"]
 	if len(p.Buckets) > 0 {
 		g.Bkts = p.Buckets
